@@ -18,6 +18,9 @@ import Mathlib.Data.Finsupp.Basic
 import Mathlib.Data.List.Sort
 import Mathlib.Data.List.Dedup
 import Mathlib.Data.Real.Basic
+import Mathlib.Data.Real.Archimedean
+import Mathlib.Data.Nat.Size
+import Mathlib.Algebra.Order.Floor.Semiring
 import Mathlib.Tactic.Ring
 import Mathlib.Tactic.Abel
 import Mathlib.Tactic.Tauto
@@ -604,6 +607,500 @@ theorem dict_all_pop [DecidableEq κ] (s : Finset κ) (f : κ → M) (k : κ) (z
 
 end L5
 
+/-! ## L9 : relabelling a key through a mapping, and plain sorting (`srt`) -/
+
+section L9
+variable {β : Type*} [CommRing R]
+
+/-- `mono` only looks at the values of the assignment on the members of the key. -/
+theorem mono_congr {x y : α → R} {k : List α} (h : ∀ i ∈ k, x i = y i) :
+    mono x k = mono y k := by
+  unfold mono
+  rw [List.map_congr_left h]
+
+/-- `relab(k, m) = tuple(m[i] for i in k)` is `k.map m`. -/
+theorem mono_map (m : α → β) (a : β → R) (k : List α) :
+    mono a (k.map m) = mono (a ∘ m) k := by
+  unfold mono
+  rw [List.map_map]
+
+/-- L9 in the conditional form used by the verifier (`linked`: `x = a ∘ m` on the labels of `k`). -/
+theorem mono_relabel (m : α → β) (a : β → R) (x : α → R) (k : List α)
+    (h : ∀ i ∈ k, x i = a (m i)) : mono a (k.map m) = mono x k := by
+  rw [mono_map]
+  exact (mono_congr (fun i hi => h i hi)).symm
+
+/-- the spin form: `asmono (relab k m) = smono k`. -/
+theorem mono_relabel_zval (m : α → β) (a : β → R) (x : α → R) (k : List α)
+    (h : ∀ i ∈ k, x i = a (m i)) : mono (zval a) (k.map m) = mono (zval x) k :=
+  mono_relabel m (zval a) (zval x) k (fun i hi => by unfold zval; rw [h i hi])
+
+theorem relabel_length (m : α → β) (k : List α) : (k.map m).length = k.length :=
+  List.length_map m
+
+theorem relabel_getElem (m : α → β) (k : List α) (i : ℕ) (h : i < k.length) :
+    (k.map m)[i]'(by rw [List.length_map]; exact h) = m k[i] :=
+  List.getElem_map m
+
+theorem relabel_getElem? (m : α → β) (k : List α) (i : ℕ) :
+    (k.map m)[i]? = (k[i]?).map m :=
+  List.getElem?_map
+
+theorem mem_relabel (m : α → β) (k : List α) (j : β) : j ∈ k.map m ↔ ∃ i ∈ k, m i = j :=
+  List.mem_map
+
+/-- `matvalid (relab k m)` from a property of the images of the members. -/
+theorem forall_mem_relabel {P : β → Prop} (m : α → β) {k : List α} (h : ∀ i ∈ k, P (m i)) :
+    ∀ j ∈ k.map m, P j := by
+  intro j hj
+  obtain ⟨i, hi, rfl⟩ := List.mem_map.mp hj
+  exact h i hi
+
+end L9
+
+section Srt
+variable [LinearOrder α]
+
+/-- `tuple(sorted(k))` -/
+def srt (l : List α) : List α := l.mergeSort leb
+
+theorem srt_def (l : List α) : srt l = l.mergeSort (fun a b => decide (a ≤ b)) := rfl
+
+theorem srt_perm (l : List α) : (srt l).Perm l := List.mergeSort_perm _ _
+
+theorem mono_srt [CommRing R] (x : α → R) (l : List α) : mono x (srt l) = mono x l :=
+  mono_perm x (srt_perm l)
+
+theorem srt_length (l : List α) : (srt l).length = l.length := (srt_perm l).length_eq
+
+theorem mem_srt {l : List α} {i : α} : i ∈ srt l ↔ i ∈ l := (srt_perm l).mem_iff
+
+theorem srt_count [DecidableEq α] (l : List α) (i : α) : (srt l).count i = l.count i :=
+  (srt_perm l).count_eq i
+
+theorem srt_sorted (l : List α) : (srt l).Pairwise (· ≤ ·) := pairwise_sort l
+
+theorem srt_of_sorted {l : List α} (h : l.Pairwise (· ≤ ·)) : srt l = l := sort_eq_self h
+
+theorem srt_idem (l : List α) : srt (srt l) = srt l := srt_of_sorted (srt_sorted l)
+
+theorem srt_of_length_le_one {l : List α} (h : l.length ≤ 1) : srt l = l := by
+  apply srt_of_sorted
+  match l, h with
+  | [], _ => exact List.Pairwise.nil
+  | [a], _ => exact List.pairwise_singleton _ a
+
+theorem forall_mem_srt_iff {P : α → Prop} (l : List α) :
+    (∀ i ∈ srt l, P i) ↔ (∀ i ∈ l, P i) := by
+  constructor
+  · exact fun h i hi => h i (mem_srt.mpr hi)
+  · exact fun h i hi => h i (mem_srt.mp hi)
+
+/-- `srt l` is the unique sorted permutation of `l`. -/
+theorem srt_unique {l l' : List α} (hs : l'.Pairwise (· ≤ ·)) (hp : l'.Perm l) : l' = srt l :=
+  List.Perm.eq_of_pairwise (fun a b _ _ hab hba => le_antisymm hab hba) hs (srt_sorted l)
+    (hp.trans (srt_perm l).symm)
+
+/-- the canonical keys are `srt` of a duplicate-free list -/
+theorem bsq_eq_srt_dedup (k : List α) : bsq k = srt k.dedup := rfl
+
+end Srt
+
+/-! ## L10 : splitting a key by a predicate (membership in a set) -/
+
+section L10
+variable [CommRing R]
+
+theorem mono_filter_mul (x : α → R) (p : α → Bool) (k : List α) :
+    mono x k = mono x (k.filter p) * mono x (k.filter (fun i => !p i)) := by
+  induction k with
+  | nil => simp [mono]
+  | cons a l ih =>
+    by_cases h : p a = true
+    · rw [List.filter_cons_of_pos h, List.filter_cons_of_neg (by simp [h]), mono_cons,
+        mono_cons, ih]
+      ring
+    · rw [List.filter_cons_of_neg h, List.filter_cons_of_pos (by simpa using h), mono_cons,
+        mono_cons, ih]
+      ring
+
+/-- the same with a decidable `Prop`-valued predicate, in the order `fout * fin` -/
+theorem mono_split (x : α → R) (S : α → Prop) [DecidablePred S] (k : List α) :
+    mono x k = mono x (k.filter (fun i => decide (¬ S i)))
+      * mono x (k.filter (fun i => decide (S i))) := by
+  rw [mono_filter_mul x (fun i => decide (S i)) k, mul_comm]
+  have : (fun i => !decide (S i)) = (fun i => decide (¬ S i)) := by
+    funext i; simp
+  rw [this]
+
+theorem filter_length_add (p : α → Bool) (k : List α) :
+    (k.filter p).length + (k.filter (fun i => !p i)).length = k.length := by
+  induction k with
+  | nil => simp
+  | cons a l ih =>
+    by_cases h : p a = true
+    · rw [List.filter_cons_of_pos h, List.filter_cons_of_neg (by simp [h]), List.length_cons,
+        List.length_cons]
+      omega
+    · rw [List.filter_cons_of_neg h, List.filter_cons_of_pos (by simpa using h),
+        List.length_cons, List.length_cons]
+      omega
+
+theorem split_length_add (S : α → Prop) [DecidablePred S] (k : List α) :
+    (k.filter (fun i => decide (¬ S i))).length + (k.filter (fun i => decide (S i))).length
+      = k.length := by
+  have h := filter_length_add (fun i => decide (S i)) k
+  have : (fun i => !decide (S i)) = (fun i => decide (¬ S i)) := by
+    funext i; simp
+  rw [this] at h
+  omega
+
+theorem mem_filter_iff (p : α → Bool) (k : List α) (i : α) :
+    i ∈ k.filter p ↔ i ∈ k ∧ p i = true := List.mem_filter
+
+theorem memset_filter [DecidableEq α] (p : α → Bool) (k : List α) :
+    (k.filter p).toFinset = k.toFinset.filter (fun i => p i = true) := by
+  ext i
+  simp [List.mem_filter]
+
+/-- `memset (fin k S) = memset k ∩ S` for a finite set `S` -/
+theorem memset_filter_mem [DecidableEq α] (S : Finset α) (k : List α) :
+    (k.filter (fun i => decide (i ∈ S))).toFinset = k.toFinset ∩ S := by
+  ext i
+  simp [List.mem_filter]
+
+/-- `memset (fout k S) = memset k \ S` for a finite set `S` -/
+theorem memset_filter_notMem [DecidableEq α] (S : Finset α) (k : List α) :
+    (k.filter (fun i => decide (i ∉ S))).toFinset = k.toFinset \ S := by
+  ext i
+  simp [List.mem_filter]
+
+theorem forall_mem_filter {P : α → Prop} (p : α → Bool) {k : List α} (h : ∀ i ∈ k, P i) :
+    ∀ i ∈ k.filter p, P i :=
+  fun i hi => h i (List.mem_filter.mp hi).1
+
+/-- the "value product" link: if the assignment takes the values `d` on the labels of the
+part, the product of those values is the monomial of the part. -/
+theorem mono_value_product {x d : α → R} (p : α → Bool) (k : List α)
+    (h : ∀ i ∈ k.filter p, x i = d i) :
+    mono x (k.filter p) = ((k.filter p).map d).prod :=
+  mono_congr h
+
+theorem value_product_nil (d : α → R) : (([] : List α).map d).prod = 1 := by simp
+
+end L10
+
+section L10sq
+variable [LinearOrder α]
+
+theorem bsq_eq_self_iff {k : List α} : bsq k = k ↔ k.Pairwise (· ≤ ·) ∧ k.Nodup := by
+  constructor
+  · intro h
+    rw [← h]
+    exact ⟨bsq_sorted k, bsq_nodup k⟩
+  · rintro ⟨hs, hn⟩
+    exact bsq_of_sorted_nodup hs hn
+
+/-- `ssq k = k` iff `k` is sorted and duplicate-free (then every member has count `1`). -/
+theorem ssq_eq_self_iff {k : List α} : ssq k = k ↔ k.Pairwise (· ≤ ·) ∧ k.Nodup := by
+  constructor
+  · intro h
+    rw [← h]
+    exact ⟨ssq_sorted k, ssq_nodup k⟩
+  · rintro ⟨hs, hn⟩
+    exact ssq_of_sorted_nodup hs hn
+
+theorem bsq_eq_self_iff_ssq_eq_self {k : List α} : bsq k = k ↔ ssq k = k := by
+  rw [bsq_eq_self_iff, ssq_eq_self_iff]
+
+/-- a subsequence of a canonical key is canonical -/
+theorem bsq_of_sublist {l k : List α} (hl : l.Sublist k) (hk : bsq k = k) : bsq l = l := by
+  obtain ⟨hs, hn⟩ := bsq_eq_self_iff.mp hk
+  exact bsq_of_sorted_nodup (hs.sublist hl) (hn.sublist hl)
+
+theorem ssq_of_sublist {l k : List α} (hl : l.Sublist k) (hk : ssq k = k) : ssq l = l := by
+  obtain ⟨hs, hn⟩ := ssq_eq_self_iff.mp hk
+  exact ssq_of_sorted_nodup (hs.sublist hl) (hn.sublist hl)
+
+theorem bsq_filter (p : α → Bool) {k : List α} (hk : bsq k = k) :
+    bsq (k.filter p) = k.filter p :=
+  bsq_of_sublist List.filter_sublist hk
+
+theorem ssq_filter (p : α → Bool) {k : List α} (hk : ssq k = k) :
+    ssq (k.filter p) = k.filter p :=
+  ssq_of_sublist List.filter_sublist hk
+
+theorem bsq_tail {k : List α} (hk : bsq k = k) : bsq k.tail = k.tail :=
+  bsq_of_sublist (List.tail_sublist k) hk
+
+theorem ssq_tail {k : List α} (hk : ssq k = k) : ssq k.tail = k.tail :=
+  ssq_of_sublist (List.tail_sublist k) hk
+
+end L10sq
+
+/-! ## set-facts : `memset k = k.toFinset`, cardinalities -/
+
+section SetFacts
+variable [DecidableEq α]
+
+theorem memset_nil : ([] : List α).toFinset = ∅ := List.toFinset_nil
+
+theorem memset_singleton (i : α) : [i].toFinset = {i} := by simp
+
+theorem memset_pair (i j : α) : [i, j].toFinset = insert j (insert i ∅) := by
+  ext a
+  simp only [List.toFinset_cons, List.toFinset_nil, Finset.mem_insert]
+  tauto
+
+theorem memset_cons (i : α) (k : List α) : (i :: k).toFinset = insert i k.toFinset :=
+  List.toFinset_cons
+
+theorem memset_append (a b : List α) : (a ++ b).toFinset = a.toFinset ∪ b.toFinset :=
+  List.toFinset_append
+
+theorem mem_memset (i : α) (k : List α) : i ∈ k.toFinset ↔ i ∈ k := List.mem_toFinset
+
+theorem card_insert_ite (i : α) (s : Finset α) :
+    (insert i s).card = s.card + (if i ∈ s then 0 else 1) := by
+  by_cases h : i ∈ s
+  · rw [Finset.card_insert_of_mem h, if_pos h, add_zero]
+  · rw [Finset.card_insert_of_notMem h, if_neg h]
+
+theorem memset_card_le (k : List α) : k.toFinset.card ≤ k.length := List.toFinset_card_le k
+
+end SetFacts
+
+section SetFactsSq
+variable [LinearOrder α]
+
+theorem memset_bsq (k : List α) : (bsq k).toFinset = k.toFinset := by
+  ext i
+  rw [List.mem_toFinset, List.mem_toFinset, mem_bsq]
+
+theorem memset_ssq_subset (k : List α) : (ssq k).toFinset ⊆ k.toFinset := by
+  intro i hi
+  rw [List.mem_toFinset] at hi ⊢
+  exact ssq_subset k i hi
+
+theorem memset_srt (k : List α) : (srt k).toFinset = k.toFinset := by
+  ext i
+  rw [List.mem_toFinset, List.mem_toFinset, mem_srt]
+
+/-- the length of the boolean canonical key is the number of distinct members -/
+theorem bsq_length_eq_card (k : List α) : (bsq k).length = k.toFinset.card := by
+  rw [← memset_bsq, List.toFinset_card_of_nodup (bsq_nodup k)]
+
+end SetFactsSq
+
+/-! ## L6 / L7 : slack ancillas;  L8 : `num_bits` -/
+
+section Slack
+open Finset
+
+/-- the integer value of a bit -/
+def bitval (a : ℕ → Bool) (i : ℕ) : ℕ := if a i then 1 else 0
+
+/-- `slack(·, n, log)`: `∑ i < n, w_i * a_i` with `w_i = 2^i` (log) or `1` (unary) -/
+def slack (log : Bool) (a : ℕ → Bool) (n : ℕ) : ℕ :=
+  ∑ i ∈ range n, (if log then 2 ^ i else 1) * bitval a i
+
+/-- largest encodable value -/
+def cap (log : Bool) (n : ℕ) : ℕ := if log then 2 ^ n - 1 else n
+
+theorem slack_zero (log : Bool) (a : ℕ → Bool) : slack log a 0 = 0 := by simp [slack]
+
+/-- the unfolding emitted by `Facts.slack_step` -/
+theorem slack_succ (log : Bool) (a : ℕ → Bool) (n : ℕ) :
+    slack log a (n + 1) = slack log a n + (if a n then (if log then 2 ^ n else 1) else 0) := by
+  unfold slack bitval
+  rw [Finset.sum_range_succ]
+  by_cases h : a n = true <;> simp [h]
+
+/-- the facts of `Facts.pow2_term` -/
+theorem pow2_pos (i : ℕ) : 1 ≤ 2 ^ i := Nat.one_le_two_pow
+theorem pow2_zero : 2 ^ 0 = 1 := rfl
+theorem pow2_succ (i : ℕ) : 2 ^ (i + 1) = 2 * 2 ^ i := by rw [pow_succ, mul_comm]
+
+theorem slack_log_lt (a : ℕ → Bool) (b : ℕ) : slack true a b < 2 ^ b := by
+  induction b with
+  | zero => simp [slack]
+  | succ n ih =>
+    rw [slack_succ, pow_succ]
+    by_cases h : a n = true <;> simp [h] <;> omega
+
+/-- L6, upper bound: every log-slack value is `≤ 2^b - 1`. -/
+theorem slack_log_le (a : ℕ → Bool) (b : ℕ) : slack true a b ≤ 2 ^ b - 1 := by
+  have := slack_log_lt a b
+  omega
+
+/-- L6, attainment: every `s < 2^b` is the value of some setting of the `b` bits. -/
+theorem slack_log_attained_of_lt (b s : ℕ) (hs : s < 2 ^ b) :
+    ∃ a : ℕ → Bool, slack true a b = s := by
+  induction b generalizing s with
+  | zero =>
+    refine ⟨fun _ => false, ?_⟩
+    rw [slack_zero]
+    simp at hs
+    omega
+  | succ n ih =>
+    have hpos : 0 < 2 ^ n := Nat.two_pow_pos n
+    have hlt : s % 2 ^ n < 2 ^ n := Nat.mod_lt _ hpos
+    obtain ⟨a', ha'⟩ := ih (s % 2 ^ n) hlt
+    have hdiv : s / 2 ^ n < 2 := by
+      rw [Nat.div_lt_iff_lt_mul hpos]
+      rw [pow_succ] at hs
+      omega
+    refine ⟨fun i => if i < n then a' i else decide (s / 2 ^ n = 1), ?_⟩
+    rw [slack_succ]
+    have hagree : slack true (fun i => if i < n then a' i else decide (s / 2 ^ n = 1)) n
+        = slack true a' n := by
+      unfold slack bitval
+      refine Finset.sum_congr rfl (fun i hi => ?_)
+      rw [if_pos (Finset.mem_range.mp hi)]
+    rw [hagree, ha']
+    have hdecomp := Nat.mod_add_div s (2 ^ n)
+    simp only [lt_irrefl, if_false, if_true, decide_eq_true_eq]
+    by_cases h1 : s / 2 ^ n = 1
+    · rw [if_pos h1]
+      rw [h1, mul_one] at hdecomp
+      exact hdecomp
+    · rw [if_neg h1]
+      have h0 : s / 2 ^ n = 0 := by omega
+      rw [h0, mul_zero] at hdecomp
+      exact hdecomp
+
+theorem slack_log_attained (b s : ℕ) (hs : s ≤ 2 ^ b - 1) :
+    ∃ a : ℕ → Bool, slack true a b = s := by
+  apply slack_log_attained_of_lt
+  have : 1 ≤ 2 ^ b := Nat.one_le_two_pow
+  omega
+
+/-- L6 in the raw form: `∑ i < b, 2^i * [a i]`. -/
+theorem sum_pow2_bits_attained (b s : ℕ) (hs : s ≤ 2 ^ b - 1) :
+    ∃ a : ℕ → Bool, ∑ i ∈ range b, 2 ^ i * (if a i then 1 else 0) = s := by
+  obtain ⟨a, ha⟩ := slack_log_attained b s hs
+  refine ⟨a, ?_⟩
+  rw [← ha]
+  unfold slack bitval
+  simp
+
+theorem sum_pow2_bits_le (b : ℕ) (a : ℕ → Bool) :
+    ∑ i ∈ range b, 2 ^ i * (if a i then 1 else 0) ≤ 2 ^ b - 1 := by
+  have h := slack_log_le a b
+  unfold slack bitval at h
+  simpa using h
+
+/-- the characterization: the attainable log-slack values are exactly `0 .. 2^b - 1`. -/
+theorem slack_log_range (b s : ℕ) : (∃ a : ℕ → Bool, slack true a b = s) ↔ s ≤ 2 ^ b - 1 := by
+  constructor
+  · rintro ⟨a, rfl⟩
+    exact slack_log_le a b
+  · exact slack_log_attained b s
+
+/-- L7, upper bound: the number of true bits among `n` is `≤ n`. -/
+theorem slack_unary_le (a : ℕ → Bool) (n : ℕ) : slack false a n ≤ n := by
+  induction n with
+  | zero => simp [slack]
+  | succ m ih =>
+    rw [slack_succ]
+    by_cases h : a m = true <;> simp [h] <;> omega
+
+/-- L7, attainment: every `s ≤ n` is the number of true bits of some setting. -/
+theorem slack_unary_attained (n s : ℕ) (hs : s ≤ n) :
+    ∃ a : ℕ → Bool, slack false a n = s := by
+  refine ⟨fun i => decide (i < s), ?_⟩
+  unfold slack bitval
+  simp only [Bool.false_eq_true, if_false, one_mul, decide_eq_true_eq]
+  rw [Finset.sum_ite, Finset.sum_const_zero, add_zero, Finset.sum_const, smul_eq_mul, mul_one]
+  have : (Finset.range n).filter (fun i => i < s) = Finset.range s := by
+    ext i
+    simp only [Finset.mem_filter, Finset.mem_range]
+    omega
+  rw [this, Finset.card_range]
+
+theorem slack_unary_range (n s : ℕ) : (∃ a : ℕ → Bool, slack false a n = s) ↔ s ≤ n := by
+  constructor
+  · rintro ⟨a, rfl⟩
+    exact slack_unary_le a n
+  · exact slack_unary_attained n s
+
+/-- L7 in the raw form -/
+theorem sum_bits_attained (n s : ℕ) (hs : s ≤ n) :
+    ∃ a : ℕ → Bool, ∑ i ∈ range n, (if a i then 1 else 0) = s := by
+  obtain ⟨a, ha⟩ := slack_unary_attained n s hs
+  refine ⟨a, ?_⟩
+  rw [← ha]
+  unfold slack bitval
+  simp
+
+theorem sum_bits_le (n : ℕ) (a : ℕ → Bool) : ∑ i ∈ range n, (if a i then 1 else 0) ≤ n := by
+  have h := slack_unary_le a n
+  unfold slack bitval at h
+  simpa using h
+
+/-- L6/L7 together, as used by the verifier: `0 ≤ slack ≤ cap`, all values attained. -/
+theorem slack_le_cap (log : Bool) (a : ℕ → Bool) (n : ℕ) : slack log a n ≤ cap log n := by
+  cases log
+  · simpa [cap] using slack_unary_le a n
+  · simpa [cap] using slack_log_le a n
+
+theorem slack_attained (log : Bool) (n s : ℕ) (hs : s ≤ cap log n) :
+    ∃ a : ℕ → Bool, slack log a n = s := by
+  cases log
+  · exact slack_unary_attained n s (by simpa [cap] using hs)
+  · exact slack_log_attained n s (by simpa [cap] using hs)
+
+/-- the variant with bits indexed by `Fin n` -/
+theorem slack_attained_fin (log : Bool) (n s : ℕ) (hs : s ≤ cap log n) :
+    ∃ a : Fin n → Bool,
+      ∑ i : Fin n, (if log then 2 ^ (i : ℕ) else 1) * (if a i then 1 else 0) = s := by
+  obtain ⟨a, ha⟩ := slack_attained log n s hs
+  refine ⟨fun i => a i, ?_⟩
+  rw [← ha]
+  unfold slack bitval
+  exact Fin.sum_univ_eq_sum_range
+    (fun i => (if log then 2 ^ i else 1) * (if a i then 1 else 0)) n
+
+/-! ### L8 : `num_bits v log = bit_length ⌈v⌉ (log) or ⌈v⌉ (unary)` -/
+
+/-- `num_bits` of qubovert; `Nat.size` is Python's `int.bit_length`. -/
+noncomputable def numBits (log : Bool) (v : ℝ) : ℕ := if log then Nat.size ⌈v⌉₊ else ⌈v⌉₊
+
+theorem nat_le_cap_size (v : ℕ) : v ≤ 2 ^ Nat.size v - 1 := by
+  have := Nat.lt_size_self v
+  omega
+
+theorem real_le_ceil (v : ℝ) : v ≤ (⌈v⌉₊ : ℝ) := Nat.le_ceil v
+
+theorem real_le_cap_size (v : ℝ) : v ≤ (2 : ℝ) ^ Nat.size ⌈v⌉₊ - 1 := by
+  have h1 : v ≤ (⌈v⌉₊ : ℝ) := Nat.le_ceil v
+  have h2 : ⌈v⌉₊ + 1 ≤ 2 ^ Nat.size ⌈v⌉₊ := Nat.lt_size_self _
+  have h3 : ((⌈v⌉₊ + 1 : ℕ) : ℝ) ≤ ((2 ^ Nat.size ⌈v⌉₊ : ℕ) : ℝ) := Nat.cast_le.mpr h2
+  push_cast at h3
+  linarith
+
+/-- L8: `cap (num_bits v) ≥ v` (as reals), in both encodings. -/
+theorem le_cap_numBits (log : Bool) (v : ℝ) : v ≤ (cap log (numBits log v) : ℝ) := by
+  cases log
+  · simpa [cap, numBits] using real_le_ceil v
+  · have h := real_le_cap_size v
+    have hc : ((2 ^ Nat.size ⌈v⌉₊ - 1 : ℕ) : ℝ) = (2 : ℝ) ^ Nat.size ⌈v⌉₊ - 1 := by
+      rw [Nat.cast_sub Nat.one_le_two_pow]
+      push_cast
+      ring
+    simp only [cap, numBits, if_true]
+    rw [hc]
+    exact h
+
+/-- hence every integer `0 ≤ s ≤ v` is encodable by `num_bits v` ancillas. -/
+theorem slack_attained_numBits (log : Bool) (v : ℝ) (s : ℕ) (hs : (s : ℝ) ≤ v) :
+    ∃ a : ℕ → Bool, slack log a (numBits log v) = s := by
+  apply slack_attained
+  have h := le_trans hs (le_cap_numBits log v)
+  exact_mod_cast h
+
+end Slack
+
 /-! ## Sanity instantiations at `α := ℕ`, `R := ℝ` / `ℚ` -/
 
 section Inst
@@ -713,3 +1210,82 @@ end Qvc
 #print axioms Qvc.dict_all_split
 #print axioms Qvc.dict_all_set
 #print axioms Qvc.dict_all_pop
+#print axioms Qvc.mono_congr
+#print axioms Qvc.mono_map
+#print axioms Qvc.mono_relabel
+#print axioms Qvc.mono_relabel_zval
+#print axioms Qvc.relabel_length
+#print axioms Qvc.relabel_getElem
+#print axioms Qvc.relabel_getElem?
+#print axioms Qvc.mem_relabel
+#print axioms Qvc.forall_mem_relabel
+#print axioms Qvc.srt_def
+#print axioms Qvc.srt_perm
+#print axioms Qvc.mono_srt
+#print axioms Qvc.srt_length
+#print axioms Qvc.mem_srt
+#print axioms Qvc.srt_count
+#print axioms Qvc.srt_sorted
+#print axioms Qvc.srt_of_sorted
+#print axioms Qvc.srt_idem
+#print axioms Qvc.srt_of_length_le_one
+#print axioms Qvc.forall_mem_srt_iff
+#print axioms Qvc.srt_unique
+#print axioms Qvc.bsq_eq_srt_dedup
+#print axioms Qvc.mono_filter_mul
+#print axioms Qvc.mono_split
+#print axioms Qvc.filter_length_add
+#print axioms Qvc.split_length_add
+#print axioms Qvc.mem_filter_iff
+#print axioms Qvc.memset_filter
+#print axioms Qvc.memset_filter_mem
+#print axioms Qvc.memset_filter_notMem
+#print axioms Qvc.forall_mem_filter
+#print axioms Qvc.mono_value_product
+#print axioms Qvc.value_product_nil
+#print axioms Qvc.bsq_eq_self_iff
+#print axioms Qvc.ssq_eq_self_iff
+#print axioms Qvc.bsq_eq_self_iff_ssq_eq_self
+#print axioms Qvc.bsq_of_sublist
+#print axioms Qvc.ssq_of_sublist
+#print axioms Qvc.bsq_filter
+#print axioms Qvc.ssq_filter
+#print axioms Qvc.bsq_tail
+#print axioms Qvc.ssq_tail
+#print axioms Qvc.memset_nil
+#print axioms Qvc.memset_singleton
+#print axioms Qvc.memset_pair
+#print axioms Qvc.memset_cons
+#print axioms Qvc.memset_append
+#print axioms Qvc.mem_memset
+#print axioms Qvc.card_insert_ite
+#print axioms Qvc.memset_card_le
+#print axioms Qvc.memset_bsq
+#print axioms Qvc.memset_ssq_subset
+#print axioms Qvc.memset_srt
+#print axioms Qvc.bsq_length_eq_card
+#print axioms Qvc.slack_zero
+#print axioms Qvc.slack_succ
+#print axioms Qvc.pow2_pos
+#print axioms Qvc.pow2_zero
+#print axioms Qvc.pow2_succ
+#print axioms Qvc.slack_log_lt
+#print axioms Qvc.slack_log_le
+#print axioms Qvc.slack_log_attained_of_lt
+#print axioms Qvc.slack_log_attained
+#print axioms Qvc.sum_pow2_bits_attained
+#print axioms Qvc.sum_pow2_bits_le
+#print axioms Qvc.slack_log_range
+#print axioms Qvc.slack_unary_le
+#print axioms Qvc.slack_unary_attained
+#print axioms Qvc.slack_unary_range
+#print axioms Qvc.sum_bits_attained
+#print axioms Qvc.sum_bits_le
+#print axioms Qvc.slack_le_cap
+#print axioms Qvc.slack_attained
+#print axioms Qvc.slack_attained_fin
+#print axioms Qvc.nat_le_cap_size
+#print axioms Qvc.real_le_ceil
+#print axioms Qvc.real_le_cap_size
+#print axioms Qvc.le_cap_numBits
+#print axioms Qvc.slack_attained_numBits
